@@ -31,7 +31,8 @@ def sample_file(name, words, rate=44100, start=0, end=None, root=60, loop_type=2
 
 
 def partition(volumes, size_sectors=64, dir_sectors=1, dir_linked=False, vol_type=1, first_free=3, layout=None):
-    """volumes: list of (name, [(fname, ftype, filebytes, order or None)], _).
+    """volumes: list of (name, [(fname, ftype, filebytes, order or None[, "late"])], _).  A file marked "late" keeps its place in the
+    directory but its sectors are handed out after everything else of the partition (directory order != physical order).
     dir_sectors / dir_linked: a volume directory of 1..2 sectors stored as a run of reserved-flag sectors or as a linked chain;
     first_free: first sector handed out (moves everything up, e.g. to leave free sectors below);
     layout: optional dict, filled with (volume name, file name) -> list of sectors holding the file, and (volume name, None) -> directory sectors."""
@@ -45,6 +46,17 @@ def partition(volumes, size_sectors=64, dir_sectors=1, dir_linked=False, vol_typ
         r = list(range(nxt[0], nxt[0] + k)); nxt[0] += k
         return r
 
+    late_secs = {}
+    total_early = first_free
+    for (vname, files, _unused) in volumes:
+        total_early += dir_sectors + (0 if dir_linked else 1) + sum(max(1, -(-len(f[2]) // SECT)) for f in files if len(f) < 5)
+    late_next = total_early
+    for (vname, files, _unused) in volumes:
+        for f in files:
+            if len(f) >= 5:
+                k = max(1, -(-len(f[2]) // SECT))
+                late_secs[(vname, f[0])] = list(range(late_next, late_next + k))
+                late_next += k
     vol_entries = b""
     for (vname, files, _unused) in volumes:
         dsecs = alloc(dir_sectors)
@@ -59,9 +71,10 @@ def partition(volumes, size_sectors=64, dir_sectors=1, dir_linked=False, vol_typ
         if not dir_linked:
             nxt[0] += 1             # leave one free sector behind a reserved run so that the run ends there
         table = b""
-        for (fname, ftype, fbytes, order) in files:
+        for f in files:
+            (fname, ftype, fbytes, order) = f[:4]
             k = max(1, -(-len(fbytes) // SECT))
-            secs = alloc(k)
+            secs = late_secs[(vname, fname)] if len(f) >= 5 else alloc(k)
             if order:                                 # permutation of the allocated sectors
                 secs = [secs[i] for i in order]
             if layout is not None:
